@@ -186,7 +186,7 @@ def c17_suite(seed, count, out, drv, thorough=False, budget_s=None):
         out.note_case(key, len(base['files']) >= 2 or case['inputs'][0]['kind'] == 'file')
         out.dist['kind:' + case['inputs'][0]['kind']] += 1; out.dist['spelled:' + case['inputs'][0].get('spelled', 'abs')] += 1
         out.sample(dict(suite='c17', key=key, tree=P._names(case['inputs'][0].get('children', [])), settings={k: v for k, v in case['settings'].items() if v},
-                        variants=['cwd', 'moved', 'listing-permutations', 'repeat', 'inside-longer-run'] + (['hash-seeds'] if thorough else [])))
+                        variants=['cwd', 'moved', 'listing-permutations', 'repeat', 'inside-longer-run', 'output-populated-by-earlier-run', 'namesake-documented-first'] + (['hash-seeds'] if thorough else [])))
         done += 1
     out.suites.append(dict(name='c17-variants', cases=done))
 
